@@ -133,28 +133,8 @@ let nsync_mu_trylock_cas2_guard old_word =
           (Z.coq_lor
             (wrap_u (Zpos (Coq_xO (Coq_xO (Coq_xO (Coq_xO (Coq_xO
               Coq_xH))))))
-              (Z.coq_lor
-                (wrap_u (Zpos (Coq_xO (Coq_xO (Coq_xO (Coq_xO (Coq_xO
-                  Coq_xH))))))
-                  (wrap_s (Zpos (Coq_xO (Coq_xO (Coq_xO (Coq_xO (Coq_xO
-                    Coq_xH)))))) (Z.shiftl (Zpos Coq_xH) Z0)))
-                (Z.sub (Zpos (Coq_xI (Coq_xI (Coq_xI (Coq_xI (Coq_xI (Coq_xI
-                  (Coq_xI (Coq_xI (Coq_xI (Coq_xI (Coq_xI (Coq_xI (Coq_xI
-                  (Coq_xI (Coq_xI (Coq_xI (Coq_xI (Coq_xI (Coq_xI (Coq_xI
-                  (Coq_xI (Coq_xI (Coq_xI (Coq_xI (Coq_xI (Coq_xI (Coq_xI
-                  (Coq_xI (Coq_xI (Coq_xI (Coq_xI
-                  Coq_xH))))))))))))))))))))))))))))))))
-                  (wrap_u (Zpos (Coq_xO (Coq_xO (Coq_xO (Coq_xO (Coq_xO
-                    Coq_xH))))))
-                    (Z.sub
-                      (wrap_u (Zpos (Coq_xO (Coq_xO (Coq_xO (Coq_xO (Coq_xO
-                        Coq_xH))))))
-                        (wrap_s (Zpos (Coq_xO (Coq_xO (Coq_xO (Coq_xO (Coq_xO
-                          Coq_xH))))))
-                          (Z.shiftl (Zpos Coq_xH) (Zpos (Coq_xO (Coq_xO
-                            (Coq_xO Coq_xH)))))))
-                      (wrap_u (Zpos (Coq_xO (Coq_xO (Coq_xO (Coq_xO (Coq_xO
-                        Coq_xH)))))) (Zpos Coq_xH)))))))
+              (wrap_s (Zpos (Coq_xO (Coq_xO (Coq_xO (Coq_xO (Coq_xO
+                Coq_xH)))))) (Z.shiftl (Zpos Coq_xH) Z0)))
             (wrap_u (Zpos (Coq_xO (Coq_xO (Coq_xO (Coq_xO (Coq_xO
               Coq_xH))))))
               (wrap_s (Zpos (Coq_xO (Coq_xO (Coq_xO (Coq_xO (Coq_xO
